@@ -14,14 +14,16 @@ CONSTANTS EmitOn
 VARIABLES cad,       \* [starts (seq of start rows), T (seq of rows per frame), F, asc]
           sig,       \* signal configuration (InjectionMath record)
           raiseAt,   \* 0 = callbacks never raise; k > 0: the path callback raises while frame k is injected
-          sel,       \* which frames the injection addresses: "all" | "slice" (every second frame) | "tail"
+          sel,       \* which frames the current injection addresses: "all" | "slice" (every second frame) | "tail"
+          rounds,    \* number of cadence-wide injections in this behaviour (1 or 2; the callback may raise in the last one)
+          round, sels,
           pc, k,
           off,       \* off[i] = rows currently added to frame i's time axis
           contrib,   \* contrib[i] = sequence of row offsets with which frame i was injected
           exc,       \* the exception escaped to the caller
           hist
 
-vars == <<cad, sig, raiseAt, sel, pc, k, off, contrib, exc, hist>>
+vars == <<cad, sig, raiseAt, sel, rounds, round, sels, pc, k, off, contrib, exc, hist>>
 
 Base == [pathForm |-> "fn", tForm |-> "fn", bpForm |-> "fn", iP |-> FALSE, iT |-> FALSE, iF |-> FALSE,
          tsub |-> 2, fsub |-> 2, smear |-> 0, bnd |-> <<>>, p0 |-> 10, slope |-> 2, curv |-> 0, wd |-> 30]
@@ -41,64 +43,81 @@ Rel(i) == cad.starts[i] - cad.starts[First]             \* start time relative t
 Init == /\ cad \in Cads /\ sig \in Sigs
         /\ sel \in {"all", "slice", "tail"} /\ (sel = "tail" => Len(cad.starts) > 1)
         /\ raiseAt \in 0..Len(cad.starts)
+        /\ rounds \in {1, 2} /\ round = 1 /\ sels = <<>>
         /\ pc = "idle" /\ k = 0 /\ off = [i \in 1..4 |-> 0] /\ contrib = [i \in 1..4 |-> <<>>]
         /\ exc = FALSE /\ hist = <<>>
 
-Begin == /\ pc = "idle" /\ hist = <<>> /\ Len(Members) >= 1 /\ raiseAt <= Len(Members)
+Begin == /\ pc = "idle" /\ hist = <<>> /\ round = 1 /\ Len(Members) >= 1 /\ raiseAt <= Len(Members)
          /\ pc' = "shift" /\ k' = 1
-         /\ UNCHANGED <<cad, sig, raiseAt, sel, off, contrib, exc, hist>>
+         /\ UNCHANGED <<cad, sig, raiseAt, sel, rounds, round, sels, off, contrib, exc, hist>>
+
+(* a second injection, possibly into another subset (whose first frame, hence every offset, may differ) *)
+Begin2 == /\ pc = "between" /\ round = 2
+          /\ \E s2 \in {"all", "slice", "tail"} :
+                 /\ (s2 = "tail" => N > 1) /\ sel' = s2
+                 /\ raiseAt <= (IF s2 = "all" THEN N ELSE IF s2 = "slice" THEN (N + 1) \div 2 ELSE N - 1)
+          /\ pc' = "shift" /\ k' = 1
+          /\ UNCHANGED <<cad, sig, raiseAt, rounds, round, sels, off, contrib, exc, hist>>
 
 Shift == /\ pc = "shift"
          /\ off' = [off EXCEPT ![Members[k]] = @ + Rel(Members[k])]
          /\ pc' = "inject"
-         /\ UNCHANGED <<cad, sig, raiseAt, sel, k, contrib, exc, hist>>
+         /\ UNCHANGED <<cad, sig, raiseAt, sel, rounds, round, sels, k, contrib, exc, hist>>
 
 Inject == /\ pc = "inject"
-          /\ IF raiseAt = k
+          /\ IF raiseAt = k /\ round = rounds
              THEN exc' = TRUE /\ UNCHANGED contrib                                   \* the callback raises: nothing is added
              ELSE exc' = exc /\ contrib' = [contrib EXCEPT ![Members[k]] = Append(@, off[Members[k]])]
           /\ pc' = "unshift"                                                         \* the shift is undone in either case
-          /\ UNCHANGED <<cad, sig, raiseAt, sel, k, off, hist>>
+          /\ UNCHANGED <<cad, sig, raiseAt, sel, rounds, round, sels, k, off, hist>>
 
 Unshift == /\ pc = "unshift"
            /\ off' = [off EXCEPT ![Members[k]] = @ - Rel(Members[k])]
-           /\ IF exc \/ k = Len(Members) THEN pc' = "finish" /\ k' = k ELSE pc' = "shift" /\ k' = k + 1
-           /\ UNCHANGED <<cad, sig, raiseAt, sel, contrib, exc, hist>>
+           /\ IF exc \/ k = Len(Members)
+              THEN /\ k' = k /\ sels' = Append(sels, sel)
+                   /\ IF round < rounds THEN pc' = "between" /\ round' = round + 1 ELSE pc' = "finish" /\ round' = round
+              ELSE pc' = "shift" /\ k' = k + 1 /\ UNCHANGED <<round, sels>>
+           /\ UNCHANGED <<cad, sig, raiseAt, sel, rounds, contrib, exc, hist>>
 
 (* overwrite_times: frame i starts at the stop time of frame i-1 plus the slew time (rows) *)
 RECURSIVE Chain(_, _)
 Chain(i, slew) == IF i = 1 THEN cad.starts[1] ELSE Chain(i - 1, slew) + cad.T[i - 1] + slew
 Overwritten(slew) == [i \in 1..N |-> Chain(i, slew)]
 
-Expected(i) == IF contrib[i] = <<>> THEN <<>> ELSE ReturnedAt(sig, [F |-> cad.F, T |-> cad.T[i]], contrib[i][1])
+AddM(a, b) == [i \in 1..Len(a) |-> [j \in 1..Len(a[i]) |-> a[i][j] + b[i][j]]]
+Expected(i) == LET g == [F |-> cad.F, T |-> cad.T[i]] IN
+               IF contrib[i] = <<>> THEN <<>>
+               ELSE IF Len(contrib[i]) = 1 THEN ReturnedAt(sig, g, contrib[i][1])
+               ELSE AddM(ReturnedAt(sig, g, contrib[i][1]), ReturnedAt(sig, g, contrib[i][2]))
 
 Finish == /\ pc = "finish"
-          /\ hist' = <<[cad |-> cad, sig |-> sig, sel |-> sel, members |-> Members, raiseAt |-> raiseAt, raised |-> exc,
+          /\ hist' = <<[cad |-> cad, sig |-> sig, sels |-> sels, raiseAt |-> raiseAt, raised |-> exc,
                         den |-> Den(sig), overwrite0 |-> Overwritten(0), overwrite3 |-> Overwritten(3),
-                        frames |-> [i \in 1..N |-> [offset |-> IF contrib[i] = <<>> THEN -1 ELSE contrib[i][1],
-                                                    added |-> Expected(i)]]]>>
+                        frames |-> [i \in 1..N |-> [offsets |-> contrib[i], added |-> Expected(i)]]]>>
           /\ pc' = "idle"
-          /\ UNCHANGED <<cad, sig, raiseAt, sel, k, off, contrib, exc>>
+          /\ UNCHANGED <<cad, sig, raiseAt, sel, rounds, round, sels, k, off, contrib, exc>>
 
 Emit == /\ EmitOn /\ pc = "idle" /\ hist # <<>> /\ Len(hist) = 1
         /\ PrintT(ToJson(hist[1]))
         /\ hist' = Append(hist, hist[1])
-        /\ UNCHANGED <<cad, sig, raiseAt, sel, pc, k, off, contrib, exc>>
+        /\ UNCHANGED <<cad, sig, raiseAt, sel, rounds, round, sels, pc, k, off, contrib, exc>>
 Idle == pc = "idle" /\ hist # <<>> /\ (~EmitOn \/ Len(hist) = 2) /\ UNCHANGED vars
 Skip == pc = "idle" /\ hist = <<>> /\ ~(Len(Members) >= 1 /\ raiseAt <= Len(Members)) /\ UNCHANGED vars
 
-Next == Begin \/ Shift \/ Inject \/ Unshift \/ Finish \/ Emit \/ Idle \/ Skip
+Next == Begin \/ Begin2 \/ Shift \/ Inject \/ Unshift \/ Finish \/ Emit \/ Idle \/ Skip
 Spec == Init /\ [][Next]_vars
 
 -----------------------------------------------------------------------------
 (* afterwards -- also when the injection raised part-way -- every frame's time axis is what it was before *)
-TsRestoredWhenIdle == pc = "idle" => \A i \in 1..4 : off[i] = 0
+TsRestoredWhenIdle == pc \in {"idle", "between", "finish"} => \A i \in 1..4 : off[i] = 0
 (* a frame is injected with its start time relative to the cadence's first frame, exactly once *)
-OffsetIsRelativeStart == \A i \in 1..N : \A j \in 1..Len(contrib[i]) : contrib[i][j] = Rel(i)
-AtMostOnce == \A i \in 1..4 : Len(contrib[i]) <= 1
+OffsetIsRelativeStart == (pc \in {"shift", "inject", "unshift"}) =>
+                             \A i \in 1..N : (contrib[i] # <<>> /\ \E j \in 1..Len(Members) : Members[j] = i /\ j <= k /\ Len(contrib[i]) = round)
+                                                 => contrib[i][Len(contrib[i])] = Rel(i)
+AtMostOnce == \A i \in 1..4 : Len(contrib[i]) <= round
 (* frames before the raising one received the signal, the raising one and later ones did not *)
 RaisePartition ==
-    (pc = "idle" /\ hist # <<>>) =>
+    (pc = "idle" /\ hist # <<>> /\ rounds = 1) =>
         \A j \in 1..Len(Members) : (Len(contrib[Members[j]]) = 1) <=> (raiseAt = 0 \/ j < raiseAt)
 (* overwriting start times spaces consecutive frames by exactly the slew time *)
 SlewExact == \A slew \in {0, 3} : \A i \in 2..N : Overwritten(slew)[i] - (Overwritten(slew)[i - 1] + cad.T[i - 1]) = slew
